@@ -163,3 +163,56 @@ pub fn contract_dt_day(d: i32, n: u64, off: i32, r: u32) -> bool { days_to_date(
 pub fn contract_dt_weekday(d: i32, n: u64, off: i32, r: u8) -> bool { let ld = local_day(d, n, off) as i64; let w = ld - spec_floor_div(ld, 7) * 7; r as i64 == (w + 1) % 7 }
 pub fn contract_dt_hour(d: i32, n: u64, off: i32, r: u32) -> bool { r as i128 == fdiv128(fmod128(local(d, n, off), NPD_I), 3_600_000_000_000) }
 pub fn contract_dt_minute(d: i32, n: u64, off: i32, r: u32) -> bool { r as i128 == fdiv128(fmod128(local(d, n, off), 3_600_000_000_000), 60_000_000_000) }
+
+fn whole_minute(days: i32, mins: u32) -> DateTime { DateTime { days, nanoseconds: mins as u64 * 60_000_000_000, offset: Offset::Fixed(0) } }
+fn abs_min(t: &DateTime) -> i64 { t.days as i64 * 1440 + (t.nanoseconds / 60_000_000_000) as i64 }
+pub fn prop_c17_jump_month(days: i32, mins: u32, wd: i32, wm: u32) {
+    assume(mins < 1440 && wm < 1440);
+    let n = whole_minute(days, mins);
+    let j = n.add_months(1).clear_until_day();
+    assert!(j.nanoseconds == 0 && abs_min(&j) > abs_min(&n));
+    let w = whole_minute(wd, wm);
+    assume(abs_min(&w) >= abs_min(&n) && abs_min(&w) < abs_min(&j));
+    assert!(w.month() == n.month());
+    assert!(j.day() == 1 && j.month() == if n.month() == 12 { 1 } else { n.month() + 1 });
+}
+pub fn prop_c17_jump_day(days: i32, mins: u32, wd: i32, wm: u32) {
+    assume(mins < 1440 && wm < 1440);
+    let n = whole_minute(days, mins);
+    let j = n.add_days(1).clear_until_hour();
+    assert!(j.nanoseconds == 0 && abs_min(&j) > abs_min(&n));
+    let w = whole_minute(wd, wm);
+    assume(abs_min(&w) >= abs_min(&n) && abs_min(&w) < abs_min(&j));
+    assert!(w.day() == n.day() && w.weekday() == n.weekday() && w.month() == n.month());
+}
+pub fn prop_c17_jump_hour(days: i32, mins: u32, wd: i32, wm: u32) {
+    assume(mins < 1440 && wm < 1440);
+    let n = whole_minute(days, mins);
+    let j = n.add_hours(1).clear_until_minute();
+    assert!(j.nanoseconds % 3_600_000_000_000 == 0 && abs_min(&j) > abs_min(&n));
+    let w = whole_minute(wd, wm);
+    assume(abs_min(&w) >= abs_min(&n) && abs_min(&w) < abs_min(&j));
+    assert!(w.hour() == n.hour() && w.day() == n.day() && w.month() == n.month());
+}
+pub fn prop_c17_jump_minute(days: i32, mins: u32) {
+    assume(mins < 1440);
+    let n = whole_minute(days, mins);
+    let j = n.add_minutes(1).clear_until_second();
+    assert!(j.nanoseconds % 60_000_000_000 == 0 && abs_min(&j) == abs_min(&n) + 1);
+}
+
+pub fn prop_c17_hour_progress(days: i32, mins: u32) {
+    assume(mins < 1440);
+    let n = whole_minute(days, mins);
+    let j = n.add_hours(1).clear_until_minute();
+    assert!(j.nanoseconds % 3_600_000_000_000 == 0 && abs_min(&j) > abs_min(&n) && abs_min(&j) <= abs_min(&n) + 60);
+}
+pub fn prop_c17_hour_witness(days: i32, mins: u32, wd: i32, wm: u32) {
+    assume(mins < 1440 && wm < 1440);
+    let n = whole_minute(days, mins);
+    let w = whole_minute(wd, wm);
+    // j characterised directly: the next whole hour after n
+    let jm = (abs_min(&n) / 60 + 1) * 60;
+    assume(abs_min(&w) >= abs_min(&n) && abs_min(&w) < jm);
+    assert!(w.hour() == n.hour());
+}
